@@ -71,7 +71,8 @@ def roundtrip(stage: str, scfg: Any, inp: Any) -> Dict[str, Any]:
 
     out: Dict[str, Any] = {}
     for path in ("dict", "yaml"):
-        rec: Dict[str, Any] = {"excw": "", "excr": "", "excw2": "", "excr2": "", "H2": {}, "H3": {}, "root2": "", "d1": {}, "d2": {}, "ord2": {}}
+        rec: Dict[str, Any] = {"excw": "", "excr": "", "excw2": "", "excr2": "", "H2": {}, "H3": {}, "root2": "", "d1": {}, "d2": {}, "ord2": {},
+                               "used": False, "Hb": {}, "Ha": {}, "H4": {}, "exc4": ""}
         try:
             d1 = scfg.to_dict() if path == "dict" else scfg.to_yaml()
         except Exception as e:
@@ -99,6 +100,28 @@ def roundtrip(stage: str, scfg: Any, inp: Any) -> Dict[str, Any]:
             rec["H3"] = project(g3)["H"]
         except Exception as e:
             rec["excr2"] = exc_sig(e)
+        if path == "dict" and stage != "branches":
+            # ... and the written dictionary stays what it is, and the graph it was written from stays what it is, while a graph read
+            # from it is USED (the rest of the pipeline runs on the re-read graph): the dictionary is then read once more
+            from .record import Tracer
+
+            act, Tracer.active = Tracer.active, None
+            try:
+                rec["Hb"] = project(scfg)["H"]
+                todo = {"input": 0, "closed": 1, "loops": 2}.get(stage, 3)
+                for fn in ("join_returns", "restructure_loop", "restructure_branch")[todo:]:
+                    try:
+                        getattr(g2, fn)()
+                    except Exception:
+                        break
+                rec["Ha"] = project(scfg)["H"]
+                rec["used"] = True
+                try:
+                    rec["H4"] = project(SCFG.from_dict(d1)[0])["H"]
+                except Exception as e:
+                    rec["exc4"] = exc_sig(e)
+            finally:
+                Tracer.active = act
         out[path] = rec
     return out
 
